@@ -292,7 +292,8 @@ class Interp:
             t = self.truth(fr, st.test)
             if t is True or t == "guard":
                 self.exec_block(fr, st.body)
-            elif t is False:
+            elif t is False or t == "nguard":
+                # `if scale == 1: return x` - the branch taken for the neutral value is the identity case of the other path
                 self.exec_block(fr, st.orelse)
             else:
                 self._branch(fr, [st.body, st.orelse])
@@ -535,7 +536,7 @@ class Interp:
         """True / False / None (unknown) / 'guard' (the `sym != 1` idiom: skipped branch is the identity)."""
         if isinstance(e, ast.BoolOp):
             vals = [self.truth(fr, v) for v in e.values]
-            vals = [True if v == "guard" else v for v in vals]
+            vals = [True if v == "guard" else (False if v == "nguard" else v) for v in vals]
             if isinstance(e.op, ast.And):
                 if any(v is False for v in vals):
                     return False
@@ -545,7 +546,11 @@ class Interp:
             return False if all(v is False for v in vals) else None
         if isinstance(e, ast.UnaryOp) and isinstance(e.op, ast.Not):
             t = self.truth(fr, e.operand)
-            return None if t in (None, "guard") else (not t)
+            if t == "guard":
+                return "nguard"
+            if t == "nguard":
+                return "guard"
+            return None if t is None else (not t)
         if isinstance(e, ast.Compare) and len(e.ops) == 1:
             l = self.eval(fr, e.left)
             r = self.eval(fr, e.comparators[0])
@@ -563,6 +568,8 @@ class Interp:
                 return res if isinstance(op, ast.Eq) else (not res)
             if isinstance(op, ast.NotEq) and isinstance(l, (Num, Cfg)) and isinstance(r, Const) and r.value in (1, 1.0):
                 return "guard"
+            if isinstance(op, ast.Eq) and isinstance(l, (Num, Cfg)) and isinstance(r, Const) and r.value in (1, 1.0):
+                return "nguard"
             if isinstance(op, (ast.NotEq, ast.Gt)) and isinstance(r, Const) and r.value == 0 and isinstance(e.left, ast.Call):
                 # emptiness guard  `t.size(0) != 0` / `len(t) > 0` on a coordinate tensor: the skipped branch holds no coordinates
                 c = e.left
@@ -670,7 +677,7 @@ class Interp:
         t = self.truth(fr, e.test)
         if t is True or t == "guard":
             return self.eval(fr, e.body)
-        if t is False:
+        if t is False or t == "nguard":
             return self.eval(fr, e.orelse)
         return join(self.eval(fr, e.body), self.eval(fr, e.orelse), "conditional expression")
 
